@@ -1,7 +1,9 @@
 SPECIFICATION SpecUnfairAnswer
 CONSTANTS
   CID = {"c1"}
+  EXCH = {"x1"}
   MaxSends = 2
+  MaxKills = 0
 INVARIANTS TypeOK AtMostOnce InFlightBacked
 PROPERTY Resolved
 CHECK_DEADLOCK FALSE
